@@ -127,7 +127,10 @@ PURE_METHODS = {"astype", "copy", "sum", "mean", "var", "std", "min", "max", "ar
                 "expandtabs", "center", "removeprefix", "removesuffix", "isalpha", "isalnum",
                 "isspace", "isnumeric", "isupper", "islower", "bit_count", "conjugate",
                 "ptp", "argsort", "cumprod", "diagonal", "trace", "compress", "choose", "newbyteorder",
-                "isoweekday", "isocalendar", "toordinal", "utcoffset", "tzname", "dst", "timetuple"}
+                "isoweekday", "isocalendar", "toordinal", "utcoffset", "tzname", "dst", "timetuple",
+                # logging.Logger: diagnostics only (no value flows back)
+                "debug", "info", "warning", "warn", "error", "critical", "exception", "isEnabledFor",
+                "getChild", "setLevel", "getEffectiveLevel"}
 
 
 def np_short(qual: str):
